@@ -14,12 +14,12 @@ MODULE = "PotasscoVerif.Props.C08"
 EXTRA_MODULES = ["PotasscoVerif.Props.C07", "PotasscoVerif.Props.C08b", "PotasscoVerif.Props.C08c", "PotasscoVerif.Lemmas.ConvertHeu", "PotasscoVerif.Props.C02x", "PotasscoVerif.Props.C08d"]
 THEOREMS = ["PotasscoVerif.C02.C02_externals_passed", "PotasscoVerif.C08.C08_heuristic_text_roundtrip", "PotasscoVerif.C08.C08_edge_text_roundtrip", "PotasscoVerif.C08.C08_nodes_injective",
             "PotasscoVerif.C08.C08_filter_hides", "PotasscoVerif.C07.C07_assign_values", "PotasscoVerif.C08.C08_symbol_spec", "PotasscoVerif.C08.C08_symbols_fold",
-            "PotasscoVerif.C08.C08_heuristics_resolved", "PotasscoVerif.C08.findAtom_remember", "PotasscoVerif.C08.symbolsLoopO_complete", "PotasscoVerif.C08.C08_table_read", "PotasscoVerif.C08.C08_edges_active", "PotasscoVerif.C08.C08_steps_edges_active", "PotasscoVerif.C08.edgeName_inj", "PotasscoVerif.C08.C08_heuristics_active", "PotasscoVerif.C02.flush_heu_outs", "PotasscoVerif.C02.flush_heu_named", "PotasscoVerif.C02.apply_plainJH"]
+            "PotasscoVerif.C08.C08_heuristics_resolved", "PotasscoVerif.C08.findAtom_remember", "PotasscoVerif.C08.symbolsLoopO_complete", "PotasscoVerif.C08.C08_table_read", "PotasscoVerif.C08.C08_edges_active", "PotasscoVerif.C08.C08_steps_edges_active", "PotasscoVerif.C08.C08_steps_edges_active_ext", "PotasscoVerif.C08.edgeName_inj", "PotasscoVerif.C08.C08_heuristics_active", "PotasscoVerif.C02.flush_heu_outs", "PotasscoVerif.C02.flush_heu_named", "PotasscoVerif.C02.apply_plainJH"]
 PARTIAL = {"C08_roundtrip (several steps)": "proved: C08_heuristics_active — for a program step with #heuristic directives converted with the extensions on, answer sets correspond one to one and every directive on an atom of the program is emitted as `_heuristic(name,modifier,bias,priority)` (same modifier, bias, priority) on an atom that is true under E X exactly when the condition holds under X, `name` being a name under which the emitted program shows the target's atom (an output directive's name or the generated `_atom(n)`); C08_edges_active — for a program step with #edge directives converted with the extensions on, answer sets correspond one to one and under corresponding answer sets an edge (s,t) is active iff the emitted program shows `_edge(s,t)` (C02's invariants extended by edge calls); further: the text of each helper predicate written by the converter is parsed back to exactly its fields; reading the TEXT of a whole symbol table of ordinary symbols "
            "and helper names (both conversions on) delivers exactly the entries' contributions — ordinary symbols shown, `_edge` helpers as acyclicity edges on their condition atoms with nodes numbered injectively by first "
            "occurrence, `_heuristic` helpers queued and resolved at the end BY NAME to the atom recorded first under the target name (same modifier, bias, priority, condition atom), unresolvable ones dropped, helpers hidden "
            "exactly under filtering (C08_table_read, C08_symbols_fold, C08_heuristics_resolved, findAtom_remember); the external value coding is a bijection; C02_externals_passed: with the extensions on the converter emits, for every pending external, the image of its atom with the LAST value declared (every external keeps its value), and C08_edges_active / C08_heuristics_active hold for steps with ANY external directives (read by `progOf` on both sides). That whole programs keep their active modifications in every "
-           "answer set (the converter's condition atoms being equivalent to the conditions: C02) is decided by the answer-set oracle on the implementation's round trip and by model == implementation at each of the three stages. Several steps: C08_steps_edges_active (edges given in ANY step, programs without external directives) is proved from C02_steps_equivalence; heuristics over several steps are covered by the per-step directive oracle only"}
+           "answer set (the converter's condition atoms being equivalent to the conditions: C02) is decided by the answer-set oracle on the implementation's round trip and by model == implementation at each of the three stages. Several steps: C08_steps_edges_active (edges given in ANY step, programs without external directives, either setting of the extension) and C08_steps_edges_active_ext (any externals, extensions on) are proved from C02_steps_equivalence; heuristics over several steps are covered by the per-step directive oracle only"}
 BSIZES = (4096,)
 RULE = ("C02-style programs over 2..5 atoms extended with 0..4 heuristic directives (all six modifiers, bias incl. INT_MIN/INT_MAX, priority 0..2^31-1, conditions empty / single / "
         "negative / compound), 0..3 edge directives (node numbers incl. negative and repeated, arbitrary conditions), externals of all values; targets named once, twice, not at all, "
